@@ -398,9 +398,11 @@ func runCrashCase(p eng.Profile, c crashCase, tornAll bool, res *crashOut) {
 		checkImage(live, img("journaled"), c.ID, "op.journaled", c.Between, res)
 	}
 	checkImage(live, img("now"), c.ID, "between", c.Between, res)
+	adminAfter = true // a call that died half-way through its file-system steps: later procedures run over its leftovers
 	for _, mp := range midPoints {
 		checkImage(live, img("mid-"+mp), c.ID, lastOp+":"+mp, c.Mid, res)
 	}
+	adminAfter = false
 
 	// --- B. torn tail: the log ends inside its last frame ------------------------------------------
 	// Only a frame appended by a call can be torn by the death of the process. When nothing was journaled since the
@@ -476,8 +478,10 @@ func runCrashCase(p eng.Profile, c crashCase, tornAll bool, res *crashOut) {
 		res.Errors = append(res.Errors, c.ID+": SaveSnapshot: "+serr.Error())
 		return
 	}
+	adminAfter = true
 	checkImage(live, img("snap.tmp_written"), c.ID, "snap.tmp_written", []map[string]any{c.Early}, res)
 	checkImage(live, img("snap.renamed"), c.ID, "snap.renamed", []map[string]any{c.SnapRenamed}, res)
+	adminAfter = false
 	checkImage(live, img("snap.truncated"), c.ID, "snap.truncated", []map[string]any{c.SnapDone}, res)
 	live.Close()
 
